@@ -176,8 +176,13 @@ func (r *Runtime) functionproto_bind(call FunctionCall) Value {
 			case _negativeZero:
 				// no-op, li == 0
 			default:
-				if !math.IsNaN(float64(lenProp)) {
-					li = int64(math.Abs(float64(lenProp)))
+				if f := float64(lenProp); !math.IsNaN(f) {
+					if f >= maxInt {
+						// too large for an integer value: the length stays a float
+						l = floatToValue(math.Trunc(f) - float64(max(len(call.Arguments)-1, 0)))
+						goto lenNotInt
+					}
+					li = floatToIntClip(f)
 				} // else li = 0
 			}
 		}
